@@ -469,6 +469,12 @@ func Exec(args []string, env *Env) int {
 				f.Close()
 				return finish(3, fail, outs, insMap)
 			}
+			if fail == "panic-mid-write" && env.InProc {
+				// a Go function that panics after having written half of its output
+				f.Close()
+				Emit(&Event{Ev: "end", ID: c.ID, Key: key, Pid: os.Getpid(), Status: 2, Note: fail, InProc: true})
+				panic("injected panic in the Go function of task " + key)
+			}
 			if fail == "sigkill-self" && !env.InProc {
 				Emit(&Event{Ev: "end", ID: c.ID, Key: key, Pid: os.Getpid(), Status: 137, Note: fail})
 				syscall.Kill(os.Getpid(), syscall.SIGKILL)
@@ -494,6 +500,12 @@ func Exec(args []string, env *Env) int {
 		killGroup()
 	}
 	switch fail {
+	case "panic-after-write":
+		if env.InProc {
+			Emit(&Event{Ev: "end", ID: c.ID, Key: key, Pid: os.Getpid(), Status: 2, Note: fail, Outs: outs, InProc: true})
+			panic("injected panic in the Go function of task " + key)
+		}
+		return finish(3, fail, outs, insMap)
 	case "exit-after-write":
 		return finish(3, fail, outs, insMap)
 	case "sigsegv-self":
